@@ -146,9 +146,10 @@ class Engine:
         if goal is True:
             self.records.append(dict(function=self.function, instance=self.label, kind=kind, text=text, status="discharged", backend="structural", claim=claim, ms=0.0, model=None))
             return True
+        structural_false = goal is False
         if goal is False:
             goal = z3.BoolVal(False)
-        facts = self.c.facts() if hasattr(self.c, "facts") else []
+        facts = self.c.facts() if hasattr(self.c, "facts") and not structural_false else []  # a structural mismatch needs no axioms (and quantifiers would only make `sat` undecidable)
         r, s = self.check(list(facts) + list(pc), [z3.Not(goal)])
         ms = (time.time() - t) * 1000
         model = None
